@@ -140,7 +140,15 @@ fn scalars(ctx: &mut Ctx) {
     let step = ctx.nshards as u32;
     let mut n = 0u64;
     while c <= 0x10FFFF {
-        let take = exhaustive || c < 0x1000 || c % 16 == 0 || (c & 0xFF) == 0x0A || (c >> 8) & 0xFF == 0x0A;
+        // quick tier: a spread sample plus every boundary of the encodings' case distinctions: bytes equal to the
+        // line feed, the edges of the surrogate block and of the planes, and supplementary characters whose lead or
+        // trail surrogate is the first / last of its range (trail = low ten bits, lead = the bits above)
+        let edge = |v: u32| v <= 1 || v >= 0x3FE;
+        let boundary = (0xD7F0..=0xE010).contains(&c)
+            || (0xFFF0..=0x1_000F).contains(&c)
+            || c >= 0x10_FFF0
+            || (c >= 0x1_0000 && (edge(c & 0x3FF) || (edge((c - 0x1_0000) >> 10) && c % 8 == 7)));
+        let take = exhaustive || c < 0x1000 || c % 16 == 0 || (c & 0xFF) == 0x0A || (c >> 8) & 0xFF == 0x0A || boundary;
         if take {
             if let Some(ch) = char::from_u32(c) {
                 scalar_case(ctx, ch);
